@@ -158,6 +158,16 @@ CHECKS["C07"] = dict(
     note=E2NOTE,
 )
 
+CHECKS["C18"] = dict(
+    engine=E1, category="model_checking", design="§3 C18",
+    technique="SMT (z3): tokenisation chain of the shipped lexer ATN over symbolic characters (blank/comment insertion, newline styles, tab vs 4 spaces) and CFG membership of the shipped parser ATN over symbolic token sequences (blank-line edits); plus symbolic execution of loads on layout variants of skeleton scripts",
+    text="Token-stream invariance under the layout edits is decided by z3 on the shipped lexer automaton for all strings <= M characters (one query per length, edit position and "
+         "inserted length, each with a reachability twin); blank-line / final-newline edits are decided on the shipped parser automaton for all sentences <= N tokens; "
+         "an E2 metamorphic run loads layout variants of the C02 skeletons with symbolic values and lets z3 compare the contents. Parse-tree equality modulo layout leaves is "
+         "not decided beyond that family.",
+    note="Trusted: antlr4 runtime semantics of the ATNs (C14), z3; E2 part: as the other E2 checks. Bounded by M, N and the skeleton family.",
+)
+
 NOT_YET = "check not built yet in this round (see DESIGN.md §3 for the plan); not claimed"
 
 
